@@ -52,6 +52,9 @@ pub fn check(tier: Tier) -> Check {
     parts.push(Part::new("C05/ops", json!({"depth": tier.pick(4, 5), "flavour": 6}), 0, tier.pick(40, 600)));
     // two operations outstanding whose packet identifiers differ in exactly one bit
     parts.push(Part::new("C05/bits", json!({}), 0, 120));
+    // value flavour (DESIGN 4): the same exploration with requests / inbound messages of unusual content
+    parts.push(Part::new("C05/ops", json!({"depth": tier.pick(5, 6), "vals": 1}), 0, tier.pick(40, 600)));
+    parts.push(Part::new("C05/ops", json!({"depth": tier.pick(4, 5), "vals": 1}), 1, tier.pick(40, 600)));
     Check {
         also_rel: false,
         property: "C05",
